@@ -4,7 +4,7 @@
 //! Monitors never `panic!`: they run inside `Drop` and during unwinding, where a second panic
 //! would abort the process.  They append to the violation log instead.
 
-use std::cell::RefCell;
+use crate::glob::Global;
 
 pub const MAGIC: u64 = 0x5EED_C0DE_F00D_BEEF;
 
@@ -73,9 +73,7 @@ pub struct Ledger {
 
 const VIOL_CAP: usize = 64;
 
-thread_local! {
-    static L: RefCell<Ledger> = RefCell::new(Ledger::new());
-}
+static L: Global<Ledger> = Global::new(Ledger::new());
 
 #[derive(Debug, Clone, Copy, PartialEq, Eq)]
 pub enum Status {
@@ -86,16 +84,16 @@ pub enum Status {
 }
 
 impl Ledger {
-    fn new() -> Self {
+    const fn new() -> Self {
         Ledger {
             epoch: 1,
-            objs: Vec::with_capacity(4096),
+            objs: Vec::new(),
             alive: 0,
             log_on: false,
             log: Vec::new(),
             viol: Vec::new(),
             viol_total: 0,
-            counts: Counts::default(),
+            counts: Counts { news: 0, clones: 0, drops: 0, eqs: 0, borrows: 0, fmts: 0 },
             ctx_hist: 0,
             ctx_step: 0,
             ctx_op: "",
@@ -152,13 +150,9 @@ impl Ledger {
     }
 }
 
+#[inline]
 fn with<R>(f: impl FnOnce(&mut Ledger) -> R) -> Option<R> {
-    L.try_with(|l| match l.try_borrow_mut() {
-        Ok(mut g) => Some(f(&mut g)),
-        Err(_) => None,
-    })
-    .ok()
-    .flatten()
+    Some(L.with(f))
 }
 
 /// Create a fresh object; returns (id, magic).
